@@ -626,6 +626,9 @@ def conv_family(tier="quick", group="base"):
         M("B", [CF("a"), CF("n", M("InD2", [CF("p", "t0"), CF("w", "t0")]))]), [("link", ("param", "r"), "w")], params=["r"])
     # call history on one retort (C11): an earlier request with another recipe, or a failed one, changes nothing
     add("history-plain-then-recipe", A3, M("B", [CF("a"), CF("w")]), [("link", "b", "w")], prior=[[("link", "c", "w")]])
+    # a SUCCESSFUL plain request first (it fills the cache of the retort itself), then the same pair with a recipe that overrides the
+    # default same-name linking: the per-call recipe must still win
+    add("history-plain-ok-then-override", A3, M("B", [CF("a"), CF("b")]), [("link", "c", "b")], prior=[[]])
     add("history-recipe-then-plain", A3, M("B", [CF("a"), CF("b")]), [], prior=[[("link", "c", "b")]])
     add("history-failed-then-recipe", A3, M("B", [CF("a"), CF("w")]), [("link", "b", "w")], prior=[[]])
     add("history-recipe-then-refused", A3, M("B", [CF("a"), CF("w")]), [], prior=[[("link", "b", "w")]])
